@@ -45,7 +45,8 @@ Record hist := mkhist {
   h_ops : list hop;
   h_fresh : option dump;       (* dump of a fresh Go node fed only the final main chain *)
   h_fresh_ok : bool;
-  h_crashes : list crash
+  h_crashes : list crash;
+  h_lmdb_ok : bool             (* when the history was also replayed over the real LMDB back-end: same final store *)
 }.
 
 (* ---------- projections of the model state ---------- *)
